@@ -658,7 +658,9 @@ def judge(ctx, impl, op, idx, mresp, record=True):
             what = 'access outside a row/array returned %r instead of raising' % (i,)
         else:
             what = 'read differs from the same read on the list of rows: got %r, expected %r' % (i, o['ok'])
-        ctx.violation(what[:600], dict(case, got=i, expected=o), key=keys[0] if keys else None)
+        # the classes are findings of the tree as found; once the repaired variant is announced nothing is excused
+        key = keys[0] if keys and not VARIANT['fixed'] else None
+        ctx.violation(what[:600], dict(case, got=i, expected=o), key=key)
     # correspondence with the model (cells are atomic in the model: skip the multi-dimensional
     # rectangular fast path, where numpy's reshape cuts cells apart)
     if K_RECT in keys and not holds:
@@ -667,7 +669,7 @@ def judge(ctx, impl, op, idx, mresp, record=True):
     m = model_canon(arr, op, idx, mresp, impl.flat)
     ii = {k: v for k, v in i.items() if k != 'exc'}
     if m != ii:
-        if holds or keys:
+        if holds or (keys and not VARIANT['fixed']):
             ctx.disagreement('Model.Ragged vs RaggedArray (%s)' % op, dict(case, model=m, impl=i))
         # a violation outside the known classes has already been reported
 
